@@ -29,7 +29,10 @@ func C10(c *Ctx) {
 	das := c.role("ab.delAllState", func() *ssa.Function {
 		return c.calleeWith(c.P.Func(fnDelAllSession), func(f *ssa.Function) bool { return len(CallsTo(f, "strings.Join")) > 0 })
 	})
-	ssName := FuncName(c.queueFunc())
+	ssName := "-"
+	if qf := c.queueFunc(); qf != nil {
+		ssName = FuncName(qf)
+	}
 	okJoin := false
 	for _, call := range Calls(das) {
 		if Callee(call) != ssName {
@@ -82,6 +85,20 @@ func C10(c *Ctx) {
 			if op.Op == "put" && op.Const {
 				keys[op.Store+"["+op.Key+"]"] = true
 			}
+		}
+	}
+	// cookies are deleted one by one (there is no delete-all for them): every
+	// cookie the library sets must be one logout deletes, by that very name
+	rmName := c.P.ConstString("", "CookieRemember")
+	for _, f := range c.P.Funcs {
+		if strings.HasSuffix(pkgOf(f), "/mocks") {
+			continue
+		}
+		for _, op := range c.StateOps(f) {
+			if op.Op != "put" || op.Store != "cookie" {
+				continue
+			}
+			r.Check(op.Const && op.Key == rmName, "C10.cookie-inventory", FuncName(f), "PutCookie key", posf(c, op.Call), "the cookie set is the one logout deletes ("+rmName+")", "a cookie is set under a name logout does not delete (logout deletes the constant "+rmName+"; this name: "+map[bool]string{true: op.Key, false: "not a constant"}[op.Const]+"): it survives logout and logs the browser in again")
 		}
 	}
 	r.Extra["keys_written_anywhere"] = sortedKeys(keys)
